@@ -22,7 +22,8 @@ EXPLANATION = (
     're-adding and sweeps unreferenced services afterwards; the class hook builds a fresh vector, frees the '
     'old rules and adopts the new ones on every path; (GRD.1) in the merge the object hook depends only on '
     'the modified flag, which every splice and removal sets, and the dropped-section branch reads the old '
-    'present bit.  The values of the caches are not decided.')
+    'present bit.  The values of the caches are not decided.'
+    " Hunt round 1: (GRD.4) no path leaves the exported service lookup having matched an entry's name without having found the entry configured.")
 ASSUMPTIONS = ['clang 14 CFG', 'a node that already has a hook got it from the same section code on an earlier pass']
 
 XQ = 'modules/iauth_xquery.c'
